@@ -744,6 +744,8 @@ class Interp:
       return ('method', base, attr)
     if _is_num(base) and attr in ('astype', 'item', 'flatten', 'copy', 'squeeze'):
       return ('method', base, attr)
+    if _is_num(base) and attr in ('ndim', 'size', 'shape'):
+      return {'ndim': 0, 'size': 1, 'shape': ()}[attr]   # a numpy scalar / 0-d array
     if isinstance(base, NdArr):
       if attr == 'shape':
         return base.shape
